@@ -31,7 +31,16 @@ pub enum FaultKind {
     NanGrad,
     InfGrad,
     ZeroGrad,
+    /// a finite log-density 200 below the true value: the energy error of a leapfrog ending here exceeds any configured
+    /// `max_energy_error` <= 100 but not the fixed limit 1000 of the step-size search
+    EnergyJump,
 }
+
+/// the eight kinds that are faults under every configuration, plus `EnergyJump` (a fault only where `max_energy_error` is low)
+pub const ALL_FAULTS_EXT: [FaultKind; 9] = [
+    FaultKind::Recoverable, FaultKind::Unrecoverable, FaultKind::NanLogp, FaultKind::PosInfLogp,
+    FaultKind::NegInfLogp, FaultKind::NanGrad, FaultKind::InfGrad, FaultKind::ZeroGrad, FaultKind::EnergyJump,
+];
 
 pub const ALL_FAULTS: [FaultKind; 8] = [
     FaultKind::Recoverable, FaultKind::Unrecoverable, FaultKind::NanLogp, FaultKind::PosInfLogp,
@@ -72,11 +81,13 @@ pub struct Target {
     pub periodic: Option<(u64, FaultKind)>,
     pub evals: Arc<AtomicU64>,
     pub log: Option<Arc<Mutex<Vec<EvalRec>>>>,
+    /// number of upcoming evaluations that fail with a recoverable error (armed by a harness between two calls)
+    pub fail_next: Arc<AtomicU64>,
 }
 
 impl Target {
     pub fn new(kind: Kind, dim: usize) -> Target {
-        Target { dim, kind, faults: Arc::new(vec![]), periodic: None, evals: Arc::new(AtomicU64::new(0)), log: None }
+        Target { dim, kind, faults: Arc::new(vec![]), periodic: None, evals: Arc::new(AtomicU64::new(0)), log: None, fail_next: Arc::new(AtomicU64::new(0)) }
     }
     pub fn iso(dim: usize, mu: f64, sigma: f64) -> Target {
         Target::new(Kind::Diag { mu: vec![mu; dim], sigma: vec![sigma; dim] }, dim)
@@ -203,6 +214,10 @@ impl CpuLogpFunc for Target {
                 }
             }
         }
+        if fault.is_none() && self.fail_next.load(Ordering::SeqCst) > 0 {
+            self.fail_next.fetch_sub(1, Ordering::SeqCst);
+            fault = Some(FaultKind::Recoverable);
+        }
         let mut lp = self.eval(position, gradient);
         let mut res = Ok(());
         match fault {
@@ -221,6 +236,7 @@ impl CpuLogpFunc for Target {
             Some(FaultKind::ZeroGrad) => {
                 if !gradient.is_empty() { gradient[0] = 0.0 }
             }
+            Some(FaultKind::EnergyJump) => lp -= 200.0,
         }
         if let Some(log) = &self.log {
             log.lock().unwrap().push(EvalRec { idx, pos: position.to_vec(), logp: lp, grad: gradient.to_vec(), fault });
